@@ -26,15 +26,13 @@ W = [
  ('slicealone', 'find', 'a projection made only of $slice fields drops every other field (it is '
   'treated as an inclusion); the other fields should be kept',
   {'_id': 1, 'l': [1, 2, 3], 's': 3}, {'l': {'$slice': 1}}, {'_id': 1, 'l': [1], 's': 3}, None),
- ('argmutated', 'find', "the caller's projection dict is modified by a successful find: '_id': 1 "
-  'is added when the dict had no _id entry',
-  {'_id': 1, 'a': 5}, {'a': 1}, {'_id': 1, 'a': 5}, 'arg'),
 ]
 
 def main():
     path = os.path.join(common.VERIF, 'known_findings.json')
     data = json.load(open(path))
-    data['findings'] = [e for e in data['findings'] if e.get('property') != 'C12']
+    data['findings'] = [e for e in data['findings'] if e.get('property') != 'C12' or
+                        e.get('status') != 'known']
     ctx = None
     for fid, entry, what, doc, proj, expected, check in W:
         oids = wire.Oids()
